@@ -1,6 +1,7 @@
 P = dict(
     harness='c03_checks.cpp',
-    variants=['asan'],
+    variants=['asan', 'memcheck'],
+    memcheck_stride=dict(quick=100, thorough=40),
     level='exploration',
     technique='runtime monitoring: one check macro per fresh TestTestingFixture; getFailureCount()/getCheckCount() compared with an independently evaluated predicate '
               '(__int128 integer values, libc strcmp/strncmp/strstr/memcmp, ASCII fold, unbounded two\'s-complement AND, exact TwoSum comparison for doubles); '
